@@ -35,9 +35,13 @@ where
 }
 
 fn t12() -> Arc<Table> {
+    // constants deliberately sit before and between the operators (operator look-ups by name
+    // must not depend on the constants being listed last)
     Table::new(vec![
+        OpDesc::cst("C", 77),
         OpDesc::bin_un("+", 0, true),
         OpDesc::bin_un("-", 1, false),
+        OpDesc::cst("K", 78),
         OpDesc::bin("*", 2, true),
         OpDesc::bin("/", 3, false),
         OpDesc::bin("^", 4, false),
@@ -47,7 +51,6 @@ fn t12() -> Arc<Table> {
         OpDesc::un("ln"),
         OpDesc::un("sqrt"),
         OpDesc::un("f"),
-        OpDesc::cst("C", 77),
     ])
 }
 
